@@ -143,12 +143,17 @@ def in_context(stmts, ctx):
                 closer("end interface", "end_interface"),
             ]
         )
+    if ctx.startswith("unit:"):
+        end = ctx[5:]
+        for s_ in stmts:
+            s_.role = "open"
+        return stmts + [S("integer :: v", "decl")] + ([S("v = 1", "assign")] if not stmts[0].text.lower().lstrip().startswith(("module", "block data")) else []) + [closer(end, "end_unit")]
     raise ValueError(ctx)
 
 
 def templates(include_never=False):
     out = []
-    for lst, default_kind in ((grammar_stmts.SPEC, "spec"), (grammar_stmts.EXEC, "exec")):
+    for lst, default_kind in ((grammar_stmts.SPEC, "spec"), (grammar_stmts.EXEC, "exec"), (grammar_stmts.UNITS, "unit")):
         for i, (text, ctx, std) in enumerate(lst):
             if std == "never" and not include_never:
                 continue
@@ -223,9 +228,14 @@ def _nm(uid, ch, allow=True):
     return None
 
 
+def _olab(uid, ch):
+    """optional statement label on a construct's opening statement"""
+    return str(300 + uid) if ch.flag("open_label") else None
+
+
 def c_if(body, ch, uid):
     nm = _nm(uid, ch)
-    out = [opener("if (a > %d) then" % uid, "if_then", name=nm)] + body
+    out = [opener("if (a > %d) then" % uid, "if_then", name=nm, label=_olab(uid, ch))] + body
     v = ch.choose(4, "if_arms")
     endname = " " + nm if nm and not ch.flag("noendname") else ""
     if v in (1, 3):
@@ -239,7 +249,7 @@ def c_if(body, ch, uid):
 def c_do(body, ch, uid):
     nm = _nm(uid, ch)
     ctl = ch.pick(["i%d = 1, n" % uid, "", "while (a > 0)", ", i%d = 1, n, 2" % uid, ", while (a > 0)"], "do_ctl")
-    out = [opener(("do " + ctl).strip(), "do", name=nm)] + body
+    out = [opener(("do " + ctl).strip(), "do", name=nm, label=_olab(uid, ch))] + body
     out.append(closer(ch.pick(["end do", "enddo"], "enddo") + (" " + nm if nm else ""), "end_do"))
     return out
 
@@ -286,7 +296,7 @@ def c_do_label_action(body, ch, uid):
 def c_select(body, ch, uid):
     nm = _nm(uid, ch)
     sel = ch.pick(["(1)", "(1:2)", "(:0)", "(3:)", "(1, 3:4, 7)", "('a')"], "case_sel")
-    out = [opener("select case (k%d)" % uid, "select_case", name=nm)]
+    out = [opener("select case (k%d)" % uid, "select_case", name=nm, label=_olab(uid, ch))]
     out += [mid("case " + sel + (" " + nm if nm and ch.flag("casename") else ""), "case")] + body
     if ch.flag("case_default"):
         out += [mid("case default", "case_default"), S("a = %d" % uid)]
